@@ -678,6 +678,7 @@ def w_fourierval(mp, t):
 
 def worker_main():
     mp = _mp()
+    import calc_cplx  # noqa: registers the cx_* worker kinds (C27: complex-valued summand classes, direct extrapolation classes)
     for line in sys.stdin:
         line = line.strip()
         if not line:
